@@ -33,7 +33,7 @@ RULE = (
     "both trivial lower bounds, or a zero-duration operation tying in start "
     "time with another operation on its machine in the returned schedule."
 )
-BUDGET = {"quick": 400, "thorough": 1500}
+BUDGET = {"quick": 400, "thorough": 4000}
 ASSUMPTIONS = [
     "why CP-SAT stopped is not observable; 'only when a time limit prevented it' is decided as: never an exception without a limit",
     "CP-SAT is multi-threaded: schedules are compared by validity and objective value, never by identity",
